@@ -20,10 +20,11 @@ DEADLINE = {'quick': 120, 'thorough': 1200}
 QUICK_SAMPLE_COST = 60.0
 
 
-def catalogue(ctx, cmod, cfn, cparams, prime=False, probe=False):
+def catalogue(ctx, cmod, cfn, cparams, prime=False, probe=False, layout=None):
     m = importlib.import_module('props.' + cmod)
     f = getattr(m, cfn)
     ctx.prime_all = prime
+    ctx.default_layout = layout      # operands whose value buffer is column-major / a strided view: same answers
     ctx.exclude_all_regions = True
     mon = cat.Monitor(ctx)
     with mon:
@@ -33,7 +34,7 @@ def catalogue(ctx, cmod, cfn, cparams, prime=False, probe=False):
         ctx.note('not_wellformed', bad[:3])
         return ctx.done(False, bad[:3], inplace=True)
     ok = mon.coherent()
-    if prime:
+    if prime or layout:
         ok = ctx.AND(ok, verdict)
     if probe:
         # second step of the history: the most recently constructed arrays (the operation's results) answer like fresh ones
@@ -353,6 +354,11 @@ def templates():
                 cmod=c['mod'], cfn=c['fn'], cparams=c['params'], prime=prime)
     for c in cat.select(max_per_fn=5, max_cost=1.0):
         add('cat-%s-%s-probed' % (c['mod'], c['name']), 'catalogue', 'quick', cost=c['cost'] * 4, cmod=c['mod'], cfn=c['fn'], cparams=c['params'], prime=False, probe=True)
+    for layout in ('F', 'strided'):
+        for c in cat.select(max_per_fn=2, max_cost=1.0):
+            add('cat-%s-%s-layout%s' % (c['mod'], c['name'], layout), 'catalogue', 'quick', cost=c['cost'] * 1.2, cmod=c['mod'], cfn=c['fn'], cparams=c['params'], layout=layout)
+        for c in cat.select(max_per_fn=20, max_cost=6.0):
+            add('cat-%s-%s-layout%s-t' % (c['mod'], c['name'], layout), 'catalogue', 'thorough', cost=c['cost'] * 1.2, cmod=c['mod'], cfn=c['fn'], cparams=c['params'], layout=layout)
     for c in cat.select(max_per_fn=40, max_cost=8.0):
         if (c['mod'], c['name']) in qnames:
             continue
